@@ -13,6 +13,8 @@ CHECKS = {
  "C06": "Contracts of the tick fan-out (cleanup: exactly one newEpoch(e) call per subscriber key in key order, nothing else changes) and of the four-byte big-endian epoch key codec (fourBytesBE equals a closed form, injective). Further clauses of NewEpoch are being added.",
  "C07": "Exact whole-store contracts of the ten candidate functions (add/update/remove in both lists, unknown state or candidate faults, self-service methods need node and Alphabet witnesses), plus nofault goals for the documented successes.",
  "C08": "Contracts of UpdateSnapshotCount (four loops with inductive invariants, ring contents modulo a symbolic count, no leak of older per-epoch lists, any accepted count >= 1), moveSnapshot and the epoch key codec; counts <= 255 as documented.",
+ "C17": "Contracts of common.Vote (nested loops: result >= 1, every stored ballot is live, only the ballot list is written), InnerRingInvoker (returns a witnessed member key or nil), RemoveVotes, and of neofs Cheque/SetConfig/AlphabetUpdate (with Notary: Alphabet multisig and unconditional effect; without: only the ballot list and the decision's own key are written; call-site precondition W(voter) of Vote); the authorisation sweep of the neofs contract. The exact-threshold clause is not yet carried by a functional contract of Vote (listed as not claimed in DESIGN.md).",
+ "C19": "Equalities on ghost call/notification logs: Cheque pays exactly amount once with its notification, InnerRingCandidateAdd transfers exactly the configured fee, Withdraw charges the fee once to Processing (Notary) or once per Alphabet key (loop invariant), deposits are reported only for GAS and 0 < amount <= 9000 GAS, alphabet.Emit sends floor(g/2) to Proxy and floor((g-floor(g/2))*7/8/N) to each Inner Ring key only with the witness of committee[index] (loop invariant) and never more than g (nonlinear lemma), Proxy/Processing/Alphabet callbacks reject other tokens.",
  "C09": "Contracts of Lock, Burn, transfer and the NewEpoch Find-loop (inductive invariants): expired locks are all released by the tick, non-expired accounts are never debited, a tick before every expiry changes nothing, a released lock cannot be released again. until == 0 is a recorded known finding.",
 }
 NA = {
